@@ -136,6 +136,23 @@ func treeCase(scratch string, id int, paths []string, goMod string) (msg string,
 			return "", false
 		}
 	}
+	// permission and special bits of regular files on disk say nothing about what the file is: one file of
+	// every tree gets (after it is written) setuid, setgid, the sticky bit, or no permission at all
+	if len(paths) > 0 {
+		full := filepath.Join(root, filepath.FromSlash(paths[id%len(paths)]))
+		switch id % 6 {
+		case 1:
+			os.Chmod(full, 0o644|os.ModeSetuid)
+		case 2:
+			os.Chmod(full, 0o755|os.ModeSetgid)
+		case 3:
+			os.Chmod(full, 0o644|os.ModeSticky)
+		case 4:
+			os.Chmod(full, 0o755|os.ModeSetuid|os.ModeSetgid|os.ModeSticky)
+		case 5:
+			os.Chmod(full, 0o400)
+		}
+	}
 	// list of the tree's regular files, by an independent walk
 	var files []modzip.File
 	var names []string
